@@ -10,12 +10,12 @@ mkdir -p $DEST
 git -C /repo worktree add --detach $WT HEAD >/dev/null 2>&1 || { echo "worktree failed"; exit 2; }
 trap 'git -C /repo worktree remove --force $WT >/dev/null 2>&1; rm -rf $WT' EXIT
 LOG=$DEST/confirm.log; : > $LOG
-for f in $SRCDIR/*; do case "$(basename $f)" in *.log|*.txt|demo|_objs|meta.json) ;; *) [ -f "$f" ] && cp "$f" $DEST/ ;; esac; done
+for f in $SRCDIR/*; do case "$(basename $f)" in *.log|*.txt|demo|_objs|fitter_objs|scratch|work|meta.json) ;; *) [ -f "$f" ] && cp "$f" $DEST/ ;; esac; done
 run_demo() { # $1 = tag
   rm -f $DEST/demo
   ( cd $DEST && sh ./build.sh ) >>$LOG 2>&1 || { echo "demo build failed ($1)" >>$LOG; return 99; }
   [ -x $DEST/demo ] || { echo "no demo binary produced ($1)" >>$LOG; return 98; }
-  ( cd $DEST && timeout 300 ./demo ) >>$LOG 2>&1; rc=$?; rm -f $DEST/demo; return $rc
+  if [ -f $DEST/run.sh ]; then ( cd $DEST && timeout 600 sh ./run.sh $WT ) >>$LOG 2>&1; rc=$?; else ( cd $DEST && timeout 300 ./demo $DEMO_ARGS ) >>$LOG 2>&1; rc=$?; fi; rm -f $DEST/demo; return $rc
 }
 echo "== pristine demo" >>$LOG; run_demo pristine; RC0=$?
 ( cd $WT && git apply $DEST/patch.diff ) >>$LOG 2>&1 || { echo "PATCH DOES NOT APPLY" | tee -a $LOG; exit 3; }
